@@ -7,6 +7,8 @@
 //!       -> Display of a graphql_client::Error built from JSON
 //!   verif_replay response <body-json>
 //!       -> deserialize Response<serde_json::Value>, re-serialize
+//!   verif_replay batch   (stdin: one `display\t<json>` or `response\t<json>` per line)
+//!       -> one JSON object per line: {"ok":..,"display":..} / {"ok":..,"json":..,"roundtrip":..,"error":..}
 use graphql_client_codegen::{
     deprecation::DeprecationStrategy, generate_module_token_stream, normalization::Normalization, CodegenMode,
     GraphQLClientCodegenOptions,
@@ -87,6 +89,44 @@ fn main() {
                     println!("ERR");
                     println!("{}", e);
                 }
+            }
+        }
+        Some("batch") => {
+            use std::io::BufRead;
+            let stdin = std::io::stdin();
+            for line in stdin.lock().lines() {
+                let line = line.expect("stdin");
+                let (cmd, arg) = match line.split_once('\t') {
+                    Some(x) => x,
+                    None => continue,
+                };
+                let out = match cmd {
+                    "display" => match serde_json::from_str::<graphql_client::Error>(arg) {
+                        Ok(e) => {
+                            let shown = std::panic::catch_unwind(|| format!("{}", e));
+                            match shown {
+                                Ok(d) => serde_json::json!({"ok": true, "display": d}),
+                                Err(_) => serde_json::json!({"ok": false, "error": "Display panicked"}),
+                            }
+                        }
+                        Err(e) => serde_json::json!({"ok": false, "error": e.to_string()}),
+                    },
+                    "response" => match serde_json::from_str::<graphql_client::Response<serde_json::Value>>(arg) {
+                        Ok(r) => {
+                            let text = serde_json::to_string(&r).unwrap();
+                            let back = serde_json::from_str::<graphql_client::Response<serde_json::Value>>(&text);
+                            let rt = match &back {
+                                Ok(b) => *b == r,
+                                Err(_) => false,
+                            };
+                            serde_json::json!({"ok": true, "json": serde_json::from_str::<serde_json::Value>(&text).unwrap(), "roundtrip": rt,
+                                               "data_is_some": r.data.is_some(), "errors_is_some": r.errors.is_some(), "extensions_is_some": r.extensions.is_some()})
+                        }
+                        Err(e) => serde_json::json!({"ok": false, "error": e.to_string()}),
+                    },
+                    _ => serde_json::json!({"ok": false, "error": "unknown command"}),
+                };
+                println!("{}", out);
             }
         }
         _ => {
